@@ -1,6 +1,7 @@
 (* Props/C13.v — statements only. *)
 From Coq Require Import ZArith QArith String List Bool.
-From PT Require Import Str Dec Loaders Formula FormulaAlg Printer C13Check C13Proofs.
+From PT Require Import Str Dec Py Loaders Formula FormulaMachine FormulaAlg Pyparse TableEnv Grammar Printer C13Check C13Proofs.
+From PT Require Import C01Lex C01Wf C13Num C13Roundtrip.
 Import ListNotations.
 Open Scope Q_scope.
 
@@ -30,3 +31,81 @@ Theorem C13_counts_print_plain :
           (zrange (-30) 30) = true.
 Proof. exact fmt_count_plain_sweep. Qed.
 Print Assumptions C13_counts_print_plain.
+
+(* ------------------------------------------------------------------ print, then parse (Proofs/C13Roundtrip.v)
+   tree_of_struct / cstring_of_struct : the derivation tree of the documented grammar that a structure is
+     printed as (adjacent atoms form one implicit group, a count-1 group is spliced, any other group is
+     parenthesised with its count text; nothing is written between groups);
+   printable P T s : computable; every count is 1 or prints as a count text of the grammar
+     (C01Lex.is_count_text), every atom is named by the table (symbol known and standing for this
+     element / this named isotope, isotope defined, charge listed, isotope number >= 0), no group is empty;
+   wfb : the well-formedness of C01 (Proofs/C01Wf.v), including its two unambiguity conditions. *)
+Open Scope string_scope.
+
+(* the printed form of ANY structure, of any nesting depth, is the rendering of its tree *)
+Theorem C13_print_is_grammar : forall P s, render (cstring_of_struct P s) = str_atoms P s.
+Proof. exact render_tree_of_struct. Qed.
+Print Assumptions C13_print_is_grammar.
+
+(* printable structures print as well-formed strings: the unambiguity conditions of C01 hold by
+   construction (no printed group begins with a count, adjacent atoms are one implicit group) *)
+Theorem C13_printable_wf : forall P T s, printable P T s = true -> wfb T (cstring_of_struct P s) = true.
+Proof. exact printable_wf. Qed.
+Print Assumptions C13_printable_wf.
+
+(* the round trip: the printed string is consumed completely and what comes back is the normal form of
+   C13Check.normalize (count-1 groups dissolved, counts at the printed precision), exactly *)
+Theorem C13_roundtrip : forall P T s, printable P T s = true ->
+  p_compound T (str_atoms P s) = POk (normalize s, DNone) "".
+Proof. exact roundtrip. Qed.
+Print Assumptions C13_roundtrip.
+
+Theorem C13_roundtrip_formula : forall E P T s, printable P T s = true ->
+  parse_compound E T (str_atoms P s) = Some (ROk (new_formula E (normalize s) KTuple None None None)).
+Proof. exact roundtrip_formula. Qed.
+Print Assumptions C13_roundtrip_formula.
+
+(* when every count of the structure is its own six-digit rounding, the atoms come back exactly *)
+Theorem C13_roundtrip_atoms : forall E P T s, printable P T s = true -> exact_counts s = true ->
+  exists f, parse_compound E T (str_atoms P s) = Some (ROk f) /\
+            forall b, (dget0 (f_atoms f) b == dget0 (count_atoms s) b)%Q.
+Proof. exact roundtrip_atoms. Qed.
+Print Assumptions C13_roundtrip_atoms.
+
+(* the fuel of C13Check.normalize is enough: it computes the fuel-free normal form *)
+Theorem C13_normalize_is_normal_form : forall s, normalize s = norm_frag round6 (FGroup s).
+Proof. exact normalize_norm. Qed.
+Print Assumptions C13_normalize_is_normal_form.
+
+(* numbers: a count equal to 1 reads back as 1; the text of a positive integer (isotope number, charge
+   magnitude) is a number without leading zero that reads back as that integer *)
+Theorem C13_unit_count_reads_back : forall c, (c == 1)%Q -> round6 c = 1%Q.
+Proof. exact round6_one. Qed.
+Print Assumptions C13_unit_count_reads_back.
+
+Theorem C13_integer_text_reads_back : forall z, (0 < z)%Z ->
+  is_whole (Z_to_string z) = true /\ parse_int (Z_to_string z) = Some z.
+Proof. exact Z_to_string_pos. Qed.
+Print Assumptions C13_integer_text_reads_back.
+
+(* repr, and named formulas *)
+Theorem C13_repr : forall P f, repr_formula P f = "formula('" ++ str_formula P f ++ "')".
+Proof. exact repr_shape. Qed.
+Print Assumptions C13_repr.
+
+Theorem C13_str_named : forall P f n, f_name f = Some n -> n <> "" -> str_formula P f = n.
+Proof. exact str_named. Qed.
+Print Assumptions C13_str_named.
+
+Theorem C13_str_unnamed : forall P f, f_name f = None \/ f_name f = Some "" ->
+  str_formula P f = str_atoms P (f_struct f).
+Proof. exact str_unnamed. Qed.
+Print Assumptions C13_str_unnamed.
+
+(* printable is inhabited: nesting, a spliced count-1 group, an isotope, D+, ions, a count above 1e6 *)
+Theorem C13_printable_example :
+  printable the_penv the_ptable ex_struct = true /\
+  str_atoms the_penv ex_struct = "CaCO[18]3(H2O)6D{+}0.5(Fe[56]{2+}2.5Cl{-})1234570" /\
+  exact_counts ex_struct = false.
+Proof. exact ex_struct_printable. Qed.
+Print Assumptions C13_printable_example.
